@@ -36,6 +36,8 @@ type Clause struct {
 	Props []string
 	Text  string
 	Where string
+	Def   bool // definitional (assumed, not proved)
+	Hidden bool // proved in the body, not assumed at call sites
 }
 
 type Callback struct {
@@ -69,6 +71,9 @@ type FuncContract struct {
 	Asserts       map[int][]Clause
 	Used          bool
 	CallPreserves map[string][]Clause // callee short name -> predicates preserved by the function values passed to it
+	SafetyProps    []string
+	AssumeRequires map[string]string  // callee short name -> assumption name
+	AssumeKinds    map[string]string  // obligation kind -> assumption name
 }
 
 type SpecFunc struct {
@@ -252,7 +257,7 @@ func (cs *Contracts) loadFile(path string, pkgName string, commentPrefix bool) e
 			switch kw {
 			case "ints":
 				cur.Ints = rest
-			case "requires", "ensures", "panics-when":
+			case "requires", "ensures", "panics-when", "defines", "proves":
 				e, err := parseCE(rest)
 				if err != nil {
 					return perr(err)
@@ -262,6 +267,15 @@ func (cs *Contracts) loadFile(path string, pkgName string, commentPrefix bool) e
 				case "requires":
 					cur.Requires = append(cur.Requires, cl)
 				case "ensures":
+					cur.Ensures = append(cur.Ensures, cl)
+				case "proves":
+					// postcondition proved in the body but not revealed at call sites
+					cl.Hidden = true
+					cur.Ensures = append(cur.Ensures, cl)
+				case "defines":
+					// definitional postcondition: introduces spec functions as names for this
+					// function's results; assumed at call sites, not proved in the body
+					cl.Def = true
 					cur.Ensures = append(cur.Ensures, cl)
 				default:
 					cur.PanicsWhen = append(cur.PanicsWhen, cl)
@@ -327,6 +341,37 @@ func (cs *Contracts) loadFile(path string, pkgName string, commentPrefix bool) e
 				cur.Inline = true
 			case "noinline":
 				cur.NoInline = true
+			case "assume-requires":
+				// named assumption: the preconditions of these callees are assumed (not proved) at
+				// their call sites in this function; every use is listed in the evidence ledger
+				f := strings.Fields(rest)
+				if len(f) < 2 {
+					return perr(fmt.Errorf("expected: assume-requires <ASSUMPTION-NAME> <callee>..."))
+				}
+				if cur.AssumeRequires == nil {
+					cur.AssumeRequires = map[string]string{}
+				}
+				for _, callee := range f[1:] {
+					cur.AssumeRequires[strings.TrimSuffix(callee, ",")] = f[0]
+				}
+			case "assume-safety":
+				// named assumption: obligations of the given kinds are assumed in this function
+				f := strings.Fields(rest)
+				if len(f) < 2 {
+					return perr(fmt.Errorf("expected: assume-safety <ASSUMPTION-NAME> <kind>..."))
+				}
+				if cur.AssumeKinds == nil {
+					cur.AssumeKinds = map[string]string{}
+				}
+				for _, k := range f[1:] {
+					cur.AssumeKinds[strings.TrimSuffix(k, ",")] = f[0]
+				}
+			case "safety-props":
+				// properties that the zero-annotation safety obligations of this function count for
+				cur.SafetyProps = nil
+				for _, p := range strings.Split(rest, ",") {
+					cur.SafetyProps = append(cur.SafetyProps, strings.TrimSpace(p))
+				}
 			case "may-panic":
 				cur.MayPanic = true
 			case "no-overflow-check":
